@@ -1197,6 +1197,11 @@ func (ctx *RenderContext) getItem(container, index interface{}) (interface{}, er
 			// Try to find the key
 			var mapKey reflect.Value
 
+			// A nil index (an undefined variable, null) is not a key of any map
+			if index == nil {
+				return nil, nil
+			}
+
 			// Convert the index to the map's key type if possible
 			keyType := v.Type().Key()
 			indexValue := reflect.ValueOf(index)
